@@ -1,5 +1,5 @@
-(* `resolve fl ast = resolve_spec ast` (Resolve/ResolveSpec.v) is FALSE whenever one of the three
-   truncate flags is off: three witnesses, one per flag.  Each is the AST (as the parser produces it) of
+(* `resolve fl ast = resolve_spec ast` (Resolve/ResolveSpec.v) is FALSE whenever one of the four
+   flags is off: four witnesses, one per flag.  Each is the AST (as the parser produces it) of
 
      start :: fn do                 start :: fn do                       start :: fn do
          if true do                     case E.A 3 do                        case E.B do
@@ -51,28 +51,62 @@ Definition is_ok {A} (r : res A) : bool := match r with Ok _ => true | _ => fals
 
 Lemma w_if_refutes : forall fl, if_truncates fl = false ->
   is_ok (resolve fl w_if) = true /\ resolve_spec w_if = Err [mkRErr ENothingMatched (s_ 5)].
-Proof. intros [[] [] []] H; try discriminate H; split; vm_compute; reflexivity. Qed.
+Proof. intros [[] [] [] []] H; try discriminate H; split; vm_compute; reflexivity. Qed.
 
 Lemma w_case_refutes : forall fl, case_truncates fl = false ->
   is_ok (resolve fl w_case) = true /\ resolve_spec w_case = Err [mkRErr ENothingMatched (s_ 6)].
-Proof. intros [[] [] []] H; try discriminate H; split; vm_compute; reflexivity. Qed.
+Proof. intros [[] [] [] []] H; try discriminate H; split; vm_compute; reflexivity. Qed.
 
 Lemma w_else_refutes : forall fl, else_truncates fl = false ->
   is_ok (resolve fl w_else) = true /\ resolve_spec w_else = Err [mkRErr ENothingMatched (s_ 7)].
-Proof. intros [[] [] []] H; try discriminate H; split; vm_compute; reflexivity. Qed.
+Proof. intros [[] [] [] []] H; try discriminate H; split; vm_compute; reflexivity. Qed.
 
-Definition all_restore (fl : rflags) : bool := if_truncates fl && case_truncates fl && else_truncates fl.
+(* `b.value` where b is a parameter and also the name of an imported namespace:
+     main.sy:  use b    A :: blob { value: int }    f :: fn b: A do b.value end    start :: fn do end
+     b.sy:     value :: 200
+   the code resolves `b.value` to the global `value` of b.sy, the specification to a field access *)
+Definition w_nsfield : past :=
+  [mkModule (File "/main.sy") 0
+     [PUse (i_ "b" 1) (Implicit (i_ "b" 1)) (File "/b.sy") (s_ 1);
+      PBlobDef (i_ "A" 2) [] [(i_ "value" 2, PTResolved BInt (s_ 2))] false (s_ 2);
+      PDefinition (i_ "f" 3) Const (PTImplied (s_ 3))
+        (PFunction "lambda" [(i_ "b" 3, PTUser (TARead (i_ "A" 3) (s_ 3)) [] (s_ 3))] (PTResolved BVoid (s_ 3))
+           [PStatementExpression (PGet (AAccess (ARead (i_ "b" 4) (s_ 4)) (i_ "value" 4) (s_ 4)) (s_ 4)) (s_ 4)]
+           false (s_ 3)) (s_ 3);
+      fn_start []];
+   mkModule (File "/b.sy") 1
+     [PDefinition (mkIdent "value" (mkSpan 1 1 1 1 2)) Const (PTImplied (mkSpan 1 1 1 1 2))
+        (PInt 200 (mkSpan 1 1 1 1 2)) (mkSpan 1 1 1 1 2)]].
+
+Definition res_eqb_ok (r r' : res resolved) : Prop :=
+  match r, r' with Ok x, Ok x' => x = x' | _, _ => False end.
+
+Lemma w_nsfield_refutes : forall fl, access_local_first fl = false ->
+  is_ok (resolve fl w_nsfield) = true /\ is_ok (resolve_spec w_nsfield) = true
+  /\ resolve fl w_nsfield <> resolve_spec w_nsfield.
+Proof.
+  intros [[] [] [] []] H; try discriminate H; (split; [vm_compute; reflexivity|split; [vm_compute; reflexivity|]]);
+    vm_compute; intros E; discriminate E.
+Qed.
+
+Definition all_restore (fl : rflags) : bool :=
+  if_truncates fl && case_truncates fl && else_truncates fl && access_local_first fl.
 
 (* if the code leaves any of the three scopes open, the resolver is not the specification: it accepts a
    program in which a variable is used outside the scope that declares it *)
 Theorem resolve_refines_refuted : forall fl, all_restore fl = false ->
-  exists ast, is_ok (resolve fl ast) = true /\ is_ok (resolve_spec ast) = false.
+  exists ast, is_ok (resolve fl ast) = true /\ resolve fl ast <> resolve_spec ast.
 Proof.
   intros fl H. unfold all_restore in H.
   destruct (if_truncates fl) eqn:E1.
   - destruct (case_truncates fl) eqn:E2.
-    + destruct (else_truncates fl) eqn:E3; [discriminate|].
-      exists w_else. destruct (w_else_refutes fl E3) as [A B]. rewrite A, B. auto.
-    + exists w_case. destruct (w_case_refutes fl E2) as [A B]. rewrite A, B. auto.
-  - exists w_if. destruct (w_if_refutes fl E1) as [A B]. rewrite A, B. auto.
+    + destruct (else_truncates fl) eqn:E3.
+      * destruct (access_local_first fl) eqn:E4; [discriminate|].
+        exists w_nsfield. destruct (w_nsfield_refutes fl E4) as (A & _ & C). auto.
+      * exists w_else. destruct (w_else_refutes fl E3) as [A B]. split; [exact A|].
+        rewrite B. destruct (resolve fl w_else); [discriminate|discriminate A..].
+    + exists w_case. destruct (w_case_refutes fl E2) as [A B]. split; [exact A|].
+      rewrite B. destruct (resolve fl w_case); [discriminate|discriminate A..].
+  - exists w_if. destruct (w_if_refutes fl E1) as [A B]. split; [exact A|].
+    rewrite B. destruct (resolve fl w_if); [discriminate|discriminate A..].
 Qed.
